@@ -34,8 +34,8 @@ def sweep(rng, thorough):
 
 def body():
     S.store_check(
-        PROP, model_cfgs=["StoreBridge.cfg", "StoreL1.cfg", "StoreGer.cfg"], gen_cfgs=["StoreGenC07.cfg", "StoreGenC07big.cfg", "StoreGenC07read.cfg", "StoreGenL1C07.cfg", "StoreGenL1C07read.cfg", "StoreGenGerC07.cfg"], quick_n=300, thorough_n=6000,
-        counterexamples=[("StoreBridgeF1.cfg", "Inv")], extra_behaviours=sweep,
+        PROP, model_cfgs=["StoreBridge.cfg", "StoreBridgeRead.cfg", "StoreL1.cfg", "StoreGer.cfg"], gen_cfgs=["StoreGenC07.cfg", "StoreGenC07big.cfg", "StoreGenC07read.cfg", "StoreGenL1C07.cfg", "StoreGenL1C07read.cfg", "StoreGenGerC07.cfg"], quick_n=300, thorough_n=6000,
+        counterexamples=[("StoreBridgeF1.cfg", "Inv"), ("StoreBridgeF11.cfg", "Inv")], extra_behaviours=sweep,
         kinds_note="bridge, l1info, injected-GER", invs=["RootsMirror", "ConsecutiveIdx", "BlocksIncrease", "ProofsVerify", "HaltedStops"],
         assumptions=[
             "storage faults are injected as SQL triggers on the store's own DB file (INSERT/DELETE statements; SELECTs cannot be failed this way)",
